@@ -74,6 +74,14 @@ Cases == UNION {UNION {{Case(r, c, c, TRUE, "valid")}
                        \cup {Case(r, e, e, Valid(r, e), "substitution") : e \in Subst(c)}
                        \cup {Case(r, SwapLast(c), SwapLast(c), Valid(r, SwapLast(c)), "transposition")}
                        \cup {Case(r, f, c, TRUE, "formatted") : f \in Formats(r, c)} : c \in ValidCodes(r)} : r \in Regimes}
-Export == IF "OUT" \in DOMAIN IOEnv THEN ndJsonSerialize(IOEnv.OUT, SetToSeq(Cases)) ELSE TRUE
+\* FR: bare SIRENs (Luhn digit found by search), each promoted to the VAT number, and every single-digit change of them
+Sirens == {c \in {b \o k : b \in Bodies(8) \cup Prog(8, 35600000, (IF Scope = "quick" THEN 12 ELSE 60)), k \in Checks1} : IsSiren(c)}
+SirenCases == UNION {{Case("FR", c, Normalize("FR", c), TRUE, "siren")}
+                     \cup {Case("FR", e, Normalize("FR", e), Valid("FR", Normalize("FR", e)), "siren-substitution") : e \in Subst(c)}
+                     \cup {Case("FR", f, Normalize("FR", c), TRUE, "siren-formatted") : f \in {Spread(c, 1, 32), CC("FR") \o c}} : c \in Sirens}
+SirenLaw == \A c \in Sirens : /\ Valid("FR", Normalize("FR", c)) /\ Len(Normalize("FR", c)) = 11
+                              /\ \A e \in Subst(c) : ~IsSiren(e) /\ Normalize("FR", e) = e /\ ~Valid("FR", e)
+ASSUME SirenLaw
+Export == IF "OUT" \in DOMAIN IOEnv THEN ndJsonSerialize(IOEnv.OUT, SetToSeq(Cases \cup SirenCases)) ELSE TRUE
 ASSUME Export
 =============================================================================
